@@ -22,7 +22,7 @@ from vlib import Result, enc_list, f2b, Toks, close
 
 PROP = 'C13'
 META = {
-    'level_text': 'Lean 4 theorems, for any linearly ordered field, every schedule and every history of solver calls (by induction over the call list): every recorded slice has temperature = schedule(time) (setup slice and every step, Euler and RK4 glue, either lookup implementation); constructor == setter (same function, same isothermal flag) for number / break points / callable in the precipitation and the diffusion TemperatureParameters; for increasing (hours, kelvin) break points the schedule is the piecewise-linear interpolant in seconds (x3600), constant outside; a specification call (constructor or setter, both packages) leaves the break-point arrays of the caller unchanged, and re-using the very same arrays for further specifications / objects / models leaves every object with the schedule it was specified with (store-of-arrays model; reference- and value-semantics coincide when the caller does not write afterwards); lookup freshness: every growth-rate evaluation reads only table blocks, and hands out / records only equilibrium compositions, computed within maxTempChange of its own temperature, for heating and cooling, fast or arbitrarily slow, with re-mesh and extension anywhere. The pre-repair code is refuted in Lean (lookup_stale: 10 steps of +0.5 K at threshold 1 K; ctorAsWas_ne_setter). Models are tied to /repo on every run by op-sequence correspondence and by call-by-call trace refinement of real Al-Zr runs; the property predicate is also evaluated directly on logged build temperatures and against independent thermodynamic evaluations.',
+    'level_text': 'Lean 4 theorems, for any linearly ordered field, every schedule and every history of solver calls (by induction over the call list): every recorded slice has temperature = schedule(time) (setup slice and every step, Euler and RK4 glue, either lookup implementation); constructor == setter (same function, same isothermal flag) for number / break points / callable in the precipitation and the diffusion TemperatureParameters; for increasing (hours, kelvin) break points the schedule is the piecewise-linear interpolant in seconds (x3600), constant outside; a specification call (constructor or setter, both packages) leaves the break-point arrays of the caller unchanged, and re-using the very same arrays for further specifications / objects / models leaves every object with the schedule it was specified with (store-of-arrays model; reference- and value-semantics coincide when the caller does not write afterwards); lookup freshness: every growth-rate evaluation reads only table blocks, and hands out / records only equilibrium compositions, computed within maxTempChange of its own temperature, for heating and cooling, fast or arbitrarily slow, with re-mesh and extension anywhere. The pre-repair code is refuted in Lean (lookup_stale: 10 steps of +0.5 K at threshold 1 K; ctorAsWas_ne_setter). Models are tied to /repo on every run by op-sequence correspondence and by call-by-call trace refinement of real Al-Zr runs; the property predicate is also evaluated directly on logged build temperatures and against independent thermodynamic evaluations. On the composed KWN step (KawinV.KWNFull) eulerStep_fresh / rk4Step_fresh / runSteps_fresh prove for every backend, schedule and number of steps that the lookup table in use was computed within maxTempChange of the newest recorded temperature, across rebuild, re-mesh and extension; non-isothermal real runs are replayed step by step through that model with the captured table rebuilds.',
     'level_note': 'Trusted: Lean kernel + Mathlib (propext, Classical.choice, Quot.sound); the hand models equal the Python code only as far as this run compared them. "In use" means: read by _singleGrowthBinary / written into a slice by _growthRateBinary; _calcMassBalance of the same slice runs BEFORE the refresh and can read a table one step staler than the threshold (counted as an observation, not proved, not a violation). Observation, not part of the statement and not checked: both classes keep references to the lists/arrays of the caller (late binding), so a caller who overwrites his array AFTER specifying changes the stored schedule (Lean: ref_alias_witness). np.interp is modelled by a left-to-right walk: exact for sorted break points and for <= 4 points in any order; unsorted longer lists, NaN times and user lists mutated after the call are outside the statement. The schedule is assumed to be a function of time. Exact-field arithmetic instead of IEEE doubles (all comparisons in the lookup rule are the same float expressions on both sides; interpolation compared to 1e-12). Multicomponent runs have no lookup table and are not part of the freshness clause.',
     'technique': 'Lean 4 proof over ordered fields (state machines, induction over call histories) + op-sequence correspondence + trace refinement of real runs',
     'design_ref': 'DESIGN.md section 6, C13',
